@@ -1,4 +1,5 @@
 import BsVerif.Lemmas.Breakpoint
+import BsVerif.Lemmas.Context
 /-!
 # C01 — breakpoint stops are exactly the projection of the real execution
 
@@ -542,5 +543,152 @@ theorem C01_patch_inv_counterexample_after_exit : ¬ C01_patch_inv_full := by
   have := h [0x1000, 0x1004] 0x1000 (fun _ => 0x90) 0 [.start] nop_bytes 0x1000
   revert this
   decide +kernel
+
+/-! ## Histories with context-only commands (`frame k`, `backtrace`, reading locals)
+
+`Model/Context.lean` states the debugger WITH its exploration context (`CSt`, `execC`): `step_over_breakpoint`,
+the `continue_execution` loop, `start`/`continue` with the reads and writes of the ecx the code has, plus the commands
+that only move or read the ecx.  The theorems above are about the ecx-free machine (`exec`); the ones below carry them
+over to every history in which context-only commands are interleaved at will: what `break`/`remove`/`start`/
+`continue` answer, and what they do to the text, does not depend on them. -/
+
+/-- **C01_ctx_ops_invisible.**  For every program, EVERY history over the extended alphabet (no hypothesis): the
+answers to the commands that are not context-only are, one by one, the answers the ecx-free machine gives to the
+history with the context-only commands deleted, and the machine ends in the same state up to the poke log of the last
+command (text, registry, position, status, execution log all equal). -/
+theorem C01_ctx_ops_invisible (τ : List Addr) (entry : Addr) (orig : Code) (exitCode : Nat) (cops : List COp) :
+    baseOuts (execAllC (initC τ entry orig exitCode) cops).2
+      = (execAll (init τ entry orig exitCode) (eraseCtx cops)).2 ∧
+    PokeEq (execAllC (initC τ entry orig exitCode) cops).1.m
+      (execAll (init τ entry orig exitCode) (eraseCtx cops)).1 :=
+  let h := execAllC_erase cops (initC τ entry orig exitCode) (init τ entry orig exitCode) (PokeEq.refl _)
+  ⟨h.2, h.1⟩
+
+/-- **C01_continue_projection_ctx.**  `C01_continue_projection` for histories with arbitrary interleavings of
+context-only commands (each `frame k` with an arbitrary ip, also a caller's return address that itself carries a
+breakpoint): `start`/`continue` still report exactly the successive first positions whose address is a user
+breakpoint currently set.  Selecting a frame or inspecting between two continues changes nothing of what the
+continues report. -/
+theorem C01_continue_projection_ctx (τ : List Addr) (entry : Addr) (orig : Code) (exitCode : Nat) (cops : List COp)
+    (ho : Bytes orig) (hcc : ∀ a ∈ τ, orig a ≠ 0xCC) (hhead : τ.head? = some entry)
+    (hb : NoBreakAtEntry entry (eraseCtx cops)) (hr : NoRemoveAtEntry entry (eraseCtx cops)) :
+    baseOuts (execAllC (initC τ entry orig exitCode) cops).2 = (Spec.run τ exitCode {} (eraseCtx cops)).2 := by
+  rw [(C01_ctx_ops_invisible τ entry orig exitCode cops).1]
+  exact C01_continue_projection τ entry orig exitCode (eraseCtx cops) ho hcc hhead hb hr
+
+private theorem patchInv_pokeEq {orig s s'} (h : PatchInv orig s') (e : PokeEq s s') : PatchInv orig s := by
+  refine ⟨fun hs a => ?_, ?_, ?_, ?_⟩
+  · rw [e.code, e.active]; exact h.text (by rw [← e.status]; exact hs) a
+  · rw [e.active]; exact h.saved
+  · rw [e.active]; exact h.distinct
+  · rw [e.active]; exact h.enabled
+
+/-- **C01_patch_inv_ctx.**  The patch invariant after every history over the extended alphabet (no hypothesis except
+that `orig` is made of bytes). -/
+theorem C01_patch_inv_ctx (τ : List Addr) (entry : Addr) (orig : Code) (exitCode : Nat) (cops : List COp)
+    (ho : Bytes orig) : PatchInv orig (execAllC (initC τ entry orig exitCode) cops).1.m :=
+  patchInv_pokeEq (C01_patch_inv τ entry orig exitCode (eraseCtx cops) ho)
+    (C01_ctx_ops_invisible τ entry orig exitCode cops).2
+
+/-- **C01_ctx_after_stop.**  Whenever `start`/`continue` (or any other command) reports `stop p` — from ANY state and
+ANY exploration context — the exploration context afterwards is (`p`, frame 0) and `p` is the thread's position:
+the context a user left on a caller frame does not survive the next stop. -/
+theorem C01_ctx_after_stop (c : CSt) (op : Op) (p : Addr) (h : (execC c (.base op)).2 = .base (.stop p)) :
+    (execC c (.base op)).1.ecx = { pc := p, frame := 0 } ∧ pc (execC c (.base op)).1.m = some p := by
+  have h' : (execBaseC c op).2 = .stop p := by
+    have : (execC c (.base op)).2 = .base (execBaseC c op).2 := rfl
+    rw [this] at h; injection h
+  show (execBaseC c op).1.ecx = _ ∧ pc (execBaseC c op).1.m = _
+  cases op with
+  | brk a =>
+    exfalso; revert h'
+    cases hs : c.m.status <;> simp [execBaseC, exec, hs]
+  | remove a =>
+    exfalso; revert h'
+    simp only [execBaseC, exec]
+    split <;> simp
+  | start =>
+    revert h'
+    cases hs : c.m.status <;> simp only [execBaseC, hs] <;> intro h'
+    · exact traceLoopC_stop _ _ p h'
+    · cases h'
+    · cases h'
+  | cont =>
+    revert h'
+    cases hs : c.m.status <;> simp only [execBaseC, hs] <;> intro h'
+    · cases h'
+    · exact traceLoopC_stop _ _ p h'
+    · cases h'
+
+/-- **C01_ctx_answers.**  What the context-only commands do: while the debuggee runs, `frame k` (frame `k` exists, the
+unwinder says its ip is `ip`) focuses (`ip`, `k`) and answers it; `backtrace` and reading locals (when the unwinder /
+the DWARF evaluation succeed there) answer the current context and leave it alone; outside a running debuggee, for a
+frame that does not exist, and when the inspection fails, the command is refused and the context stays.  None of them touches the machine (only the per-command poke log starts afresh). -/
+theorem C01_ctx_answers (c : CSt) :
+    (∀ x, (execC c (.ctx x)).1.m = { c.m with pokes := [] }) ∧
+    (c.m.status = .inProgress → ∀ k ip, execC c (.ctx (.frame k (some ip)))
+        = ({ m := { c.m with pokes := [] }, ecx := { pc := ip, frame := k } }, .ctx (some { pc := ip, frame := k }))) ∧
+    (c.m.status = .inProgress → ∀ x, x = CtxOp.backtrace true ∨ x = CtxOp.locals true →
+      execC c (.ctx x) = ({ c with m := { c.m with pokes := [] } }, .ctx (some c.ecx))) ∧
+    (∀ x, (∃ k, x = CtxOp.frame k none) ∨ x = CtxOp.backtrace false ∨ x = CtxOp.locals false →
+      execC c (.ctx x) = ({ c with m := { c.m with pokes := [] } }, .ctx none)) ∧
+    (c.m.status ≠ .inProgress → ∀ x, execC c (.ctx x) = ({ c with m := { c.m with pokes := [] } }, .ctx none)) := by
+  refine ⟨fun x => execC_ctx_m c x, fun hs k ip => ?_, fun hs x hx => ?_, fun x hx => ?_, fun hs x => ?_⟩
+  · simp only [execC, execCtx, hs]
+  · rcases hx with rfl | rfl <;> simp only [execC, execCtx, hs]
+  · rcases hx with ⟨k, rfl⟩ | rfl | rfl <;> cases hs : c.m.status <;> simp only [execC, execCtx, hs]
+  · cases hs' : c.m.status with
+    | inProgress => exact absurd hs' hs
+    | unload => simp only [execC, execCtx, hs']
+    | exited => simp only [execC, execCtx, hs']
+
+/-! ### non-vacuity and sanity tests for the extended alphabet (the `#guard`s are tests, not proofs) -/
+
+/-- `main` (0x1000..0x100c) calls `f` (0x2000, 0x2004) twice; breakpoint in `f`; between the two continues the user
+selects the caller frame (ip = the return address 0x1008, on which a breakpoint is then even set) and inspects -/
+example :
+    let τ : List Addr := [0x1000, 0x1004, 0x2000, 0x2004, 0x1008, 0x2000, 0x2004, 0x100c]
+    let orig : Code := fun _ => 0x90
+    let cops : List COp := [.base (.brk 0x2000), .base .start, .ctx (.frame 1 (some 0x1008)), (.ctx (.locals true)),
+      .base .cont, (.ctx (.backtrace true)), .base (.brk 0x100c), .ctx (.frame 1 (some 0x100c)), .base .cont, .base .cont]
+    Bytes orig ∧ (∀ a ∈ τ, orig a ≠ 0xCC) ∧ τ.head? = some 0x1000 ∧
+    NoBreakAtEntry 0x1000 (eraseCtx cops) ∧ NoRemoveAtEntry 0x1000 (eraseCtx cops) := by
+  refine ⟨fun _ => by show (0x90 : Nat) < 256; decide, fun _ _ => by show (0x90 : Nat) ≠ 0xCC; decide,
+    rfl, by decide, by decide⟩
+
+#guard (execAllC (initC [0x1000, 0x1004, 0x2000, 0x2004, 0x1008, 0x2000, 0x2004, 0x100c] 0x1000 (fun _ => 0x90) 3)
+    [.base (.brk 0x2000), .base .start, .ctx (.frame 1 (some 0x1008)), (.ctx (.locals true)), .base .cont, (.ctx (.backtrace true)),
+     .base (.brk 0x100c), .ctx (.frame 1 (some 0x100c)), .base .cont, .base .cont, (.ctx (.backtrace true))]).2
+  == [.base .ok, .base (.stop 0x2000), .ctx (some ⟨0x1008, 1⟩), .ctx (some ⟨0x1008, 1⟩), .base (.stop 0x2000),
+      .ctx (some ⟨0x2000, 0⟩), .base .ok, .ctx (some ⟨0x100c, 1⟩), .base (.stop 0x100c), .base (.exit 3), .ctx none]
+
+/-! ### why `step_over_breakpoint` must ask the tracee for its pc -/
+
+/-- `step_over_breakpoint` as it would be if it took the pc from the exploration context (`self.ecx().location().pc`,
+"the same as `single_step_instruction` does") instead of `tracee.pc()` -/
+def stepOverBreakpointFromEcx (c : CSt) : CSt :=
+  match find? c.m.active c.ecx.pc with
+  | none => c
+  | some b => if b.enabled then ecxUpdate { c with m := stepOverWith c.m b } else c
+
+/-- `continue` built on it -/
+def contFromEcx (c : CSt) : CSt × Out :=
+  let c0 : CSt := { c with m := { c.m with pokes := [] } }
+  traceLoopC (fuelFor c0.m) (stepOverBreakpointFromEcx c0)
+
+/-- **C01_ctx_real_pc_needed_counterexample.**  With that variant the erasure theorem is false, on the smallest
+possible history: stop at a breakpoint in a callee, select the caller frame, continue.  The breakpoint under the
+thread's real pc is not stepped over, its INT3 traps again at once, and the SAME arrival is reported a second time
+(the position has not moved); the model of the real code (`execC`) goes on to the exit, as the specification says. -/
+theorem C01_ctx_real_pc_needed_counterexample :
+    let τ : List Addr := [0x1000, 0x1004, 0x2000, 0x2004, 0x1008]
+    let c := (execAllC (initC τ 0x1000 (fun _ => 0x90) 0)
+      [.base (.brk 0x2000), .base .start, .ctx (.frame 1 (some 0x1008))]).1
+    (c.m.idx = 2 ∧ c.ecx = ⟨0x1008, 1⟩) ∧
+    (execC c (.base .cont)).2 = .base (.exit 0) ∧
+    (Spec.run τ 0 {} [.brk 0x2000, .start, .cont]).2 = [.ok, .stop 0x2000, .exit 0] ∧
+    (contFromEcx c).2 = .stop 0x2000 ∧ (contFromEcx c).1.m.idx = 2 := by
+  refine ⟨⟨by decide +kernel, by decide +kernel⟩, by decide +kernel, by decide +kernel, by decide +kernel,
+    by decide +kernel⟩
 
 end BsVerif.Bp
